@@ -29,6 +29,8 @@ FuncE(ps, body) == [e |-> "func", ps |-> ps, body |-> body]
 LetS(n, x) == [s |-> "let", nm |-> n, x |-> x]
 n_t == << "t" >>  n_u == << "u" >>  n_l == << "l" >>  n_m == << "m" >>  n_s == << "s" >>
 n_inc == << "i", "n", "c" >>  n_add == << "a", "d", "d" >>  n_kv == << "k", "v" >>  n_red == << "r", "e", "d" >>
+n_lb == << "l", "b" >>  n_tb == << "t", "b" >>
+n_nn == << "n", "n" >>  n_nz == << "n", "z" >>
 n_pos == << "p", "o", "s" >>  n_dup == << "d", "u", "p" >>  n_red3 == << "r", "e", "d", "3" >>  n_cap == << "c", "a", "p" >>
 
 (* let t = {a = 1, b = "x"}; let u = {b = "y", a = 2}; let l = [1, "a", 2]; *)
@@ -65,7 +67,15 @@ PreFop == << LetS(n_l, ListE(<< L(IntV(1)), L(IntV(2)), L(IntV(3)) >>)),
              LetS(n_pos, FuncE(<< n_x >>, Bin("gt", S(n_x), L(IntV(1))))),
              LetS(n_kv, FuncE(<< n_k, n_v >>, ListE(<< Bin("add", S(n_k), L(StrV(<< "z" >>))), S(n_v) >>))),
              LetS(n_red, FuncE(<< n_acc, n_x >>, Bin("add", S(n_acc), S(n_x)))),
-             LetS(n_red3, FuncE(<< n_acc, n_k, n_v >>, Bin("add", S(n_acc), S(n_v)))) >>
+             LetS(n_red3, FuncE(<< n_acc, n_k, n_v >>, Bin("add", S(n_acc), S(n_v)))),
+             (* targets whose SECOND item breaks an arithmetic callback (faults after the first iteration) *)
+             LetS(n_lb, ListE(<< L(IntV(1)), L(StrV(<< "a" >>)), L(IntV(2)) >>)),
+             LetS(n_tb, TupE(<< F(n_a, L(IntV(1))), F(n_b, L(StrV(<< "x" >>))) >>)),
+             (* callbacks that answer NULL for some items (filter must drop those) *)
+             LetS(n_nn, FuncE(<< n_x >>, [e |-> "select", x |-> Bin("eq", S(n_x), L(IntV(1))), dflt |-> << L(Null) >>,
+                                          flds |-> << F(N_true, S(n_x)) >>])),
+             LetS(n_nz, FuncE(<< n_k, n_v >>, [e |-> "select", x |-> S(n_k), dflt |-> << L(Null) >>,
+                                              flds |-> << F(n_a, L(BoolV(TRUE))) >>])) >>
 
 (* ---- literal pools ---- *)
 LitsSmall == << IntV(0), IntV(1), IntV(2), BoolV(TRUE), BoolV(FALSE), StrV(<< "a" >>), Null >>
@@ -140,6 +150,7 @@ FamMod == {"lit", "var", "bin", "module", "copy", "dot", "let"}
 FamFop == {"lit", "var", "bin", "func", "fop", "list", "tuple", "let"}
 FamMisc == {"lit", "var", "bin", "fmt", "fmtbad", "fmt1", "range", "cast", "is", "fail", "trace", "tuple", "let", "exprstmt"}
 FamFopPre == {"lit", "var", "fop", "let"}
+FamFopList == {"lit", "var", "fop", "list", "let"}
 FamFopInl == {"lit", "var", "bin", "func", "fop", "let"}
 FamCallPre == {"lit", "var", "bin", "call", "badcall", "let", "exprstmt"}
 FamFuncDef == {"lit", "var", "bin", "func", "select", "let"}
